@@ -202,8 +202,10 @@ func (p *PostingsList) iterator(includeFreq, includeNorm, includeLocs bool,
 		return rv
 	}
 
-	// "general" encoding, check if empty
-	if p.postings == nil {
+	// "general" encoding, check if empty; a reused postings list that was
+	// initialized by a dictionary without a segment (empty dictionary of an
+	// absent field) keeps its cleared bitmap but has no segment data
+	if p.postings == nil || p.sb == nil {
 		return rv
 	}
 
